@@ -244,8 +244,9 @@ def StageReference(dataReference,  # type: experiment.model.graph.DataReference
                     return walked
 
                 # VV: realpath() cannot follow the symbolic links that the archive itself is about to create, do not
-                #     extract (or link) anything *through* them
-                ownLinks = set(location(os.path.join(target, m.name)) for m in members if m.issym())
+                #     extract (or link) anything *through* them. A hard link to a symbolic link member is a second
+                #     symbolic link (link() does not follow symbolic links)
+                ownLinks = set(location(os.path.join(target, m.name)) for m in members if m.issym() or m.islnk())
 
                 for f in members:
                     # VV: normalise the path of the member (it may contain `..` segments or be absolute)
